@@ -2,7 +2,7 @@
 # usage: run_seed.sh <seed-id> "<check ids>" [scale]   (scratch /tmp/w_seed; patch from /verif/seeded/<id>/patch.diff or /tmp/seed_<id>/out/patch.diff)
 ID="$1"; CHECKS="$2"; SCALE="${3:-1}"
 W=${SEEDW:-/tmp/w_seed}
-P=/verif/seeded/$ID/patch.diff; [ -f "$P" ] || P=/tmp/seed_$ID/out/patch.diff; case "$ID" in *b) [ -f /verif/seeded/$ID/patch.diff ] || P=/tmp/seed2_${ID%b}/out/patch.diff;; esac
+P=/verif/seeded/$ID/patch.diff; [ -f "$P" ] || P=/tmp/seed_$ID/out/patch.diff; case "$ID" in *b) [ -f /verif/seeded/$ID/patch.diff ] || P=/tmp/seed2_${ID%b}/out/patch.diff;; *c) [ -f /verif/seeded/$ID/patch.diff ] || P=/tmp/seed3_${ID%c}/out/patch.diff;; esac
 rsync -a --exclude target --exclude .git /repo/ "$W/repo/"; touch "$W/repo/ciphercore-base/src/lib.rs"
 rsync -a --exclude target --exclude target-small --exclude Cargo.toml /verif/harness/ "$W/harness/"
 cp /verif/known_findings.jsonl "$W/out/"
